@@ -9,6 +9,7 @@ ENTRY = "bash::write_completion_script"
 MAIN = "_H__command__H"
 SUB = "_H__command__H_subword"
 _cache = {}
+_asm = {}
 
 
 def flag_sets(repo, tier):
@@ -30,6 +31,7 @@ def skeleton(repo, flags):
         text, origin, asm = E.assemble(repo, ENTRY, flags)
         tree = B.parse(text)
         _cache[key] = (text, tree, B.functions(tree), origin)
+        _asm[key] = asm
     return _cache[key]
 
 
@@ -105,53 +107,128 @@ def cond_tests(node):
 
 
 # ------------------------------------------------------------------ SK-QUOTE (C07)
+_dims = {}
+
+
+def dims_for(repo, flags):
+    """(Dims, hole_is_text) of the skeleton under a flag assignment"""
+    key = tuple(sorted(flags.items()))
+    if key not in _dims:
+        from vlib import shdims as SD, taint as T, types as TY, rules_emit as RE
+
+        text, tree, funcs, origin = skeleton(repo, flags)
+        asm = _asm[key]
+        ty = TY.Typer(repo, RE.ROARING_DIMS)
+        tn = T.Taint(repo, ty, set())  # no encoder exempted: "may hold grammar text at run time"
+        hole_text = {tok[3:-3]: any(tn.raw(f, e, env) for f, e, env in lst) for tok, lst in asm.holes.items()}
+        te = T.Taint(repo, ty, {"make_string_constant"})  # what reaches the hole WITHOUT the module's string-constant encoder
+        hole_raw = {tok[3:-3]: any(te.raw(f, e, env) for f, e, env in lst) for tok, lst in asm.holes.items()}
+        _dims[key] = (SD.Dims(tree, hole_text), hole_text, hole_raw)
+    return _dims[key]
+
+
 def quote_rule(repo, res, tier, rule="SK-QUOTE"):
+    """(a) the right operand of [[ = / == / != ]] is a glob pattern wherever an expansion in it is unquoted: every unquoted
+    expansion there must be of a clean (non-text) variable; (b) eval re-reads its argument as code: everything expanded at
+    the first level must be clean; (c) an unquoted expansion of a text variable in a command argument, array element or
+    for-list is split into words and glob-expanded.  `text` / `clean` come from vlib.shdims (def-use over the skeleton)."""
     names, sets = flag_sets(repo, tier)
     seen = {}
-    n_tests = 0
+    n_tests = n_eval = n_words = 0
     for flags in sets:
         text, tree, funcs, _ = skeleton(repo, flags)
-        for n, loops, conds, f in B.walk(tree):
-            if n.kind != "cond":
-                continue
-            for t in n.tests:
-                if t[0] != "bin" or t[2] not in ("==", "=", "!="):
-                    continue
-                lhs, op, rhs = t[1], t[2], t[3]
-                n_tests += 1
-                key = f"{rule}:{f}:[[ {lhs} {op} {rhs} ]]"
-                if key in seen:
-                    continue
-                # the right operand is a pattern unless quoted: every $expansion in it must sit inside double quotes,
-                # except the deliberate `${prefix}*` of the prefix matcher where prefix was run through printf %q
-                unq = unquoted_expansions(rhs)
-                ok = not unq
-                why = f"right operand {rhs} is " + ("quoted or constant" if ok else f"an unquoted expansion of {unq}: it is matched as a glob pattern")
-                if not ok and f and f.startswith("H__MATCH_FN_NAME") and unq == ["prefix"]:
-                    # prefix=$(printf '%q' "$prefix") precedes: check it structurally
-                    fn_nodes = funcs.get(f, [])
-                    q_ok = any(any(nn.kind == "simple" and any(a[0] == "prefix" and "printf '%q'" in a[3] for a in B.assignments(nn)) for nn, *_ in B.walk(fnode)) for fnode in fn_nodes)
-                    if q_ok:
-                        ok = True
-                        why = f"right operand {rhs}: prefix was passed through printf %q, the trailing * is the intended pattern"
-                seen[key] = (ok, why, n.line)
+        dims, hole_text, hole_raw = dims_for(repo, flags)
+        for n, loops, conds, f in dims.walk_all():
+            if n.kind == "cond":
+                for t in n.tests:
+                    if t[0] != "bin" or t[2] not in ("==", "=", "!="):
+                        continue
+                    lhs, op, rhs = t[1], t[2], t[3]
+                    n_tests += 1
+                    key = f"{rule}:pattern:{f}:[[ {lhs} {op} {rhs} ]]"
+                    unq = unquoted_expansions(rhs)
+                    textv = [v for v in unq if dims.var_is_text(v)]
+                    unq_holes = [h for h in unquoted_holes(rhs) if hole_text.get(h, True)]
+                    ok = not textv and not unq_holes
+                    why = f"right operand {rhs}: " + ("quoted, constant, or expands only clean variables " + str(sorted(set(unq))) if ok else f"unquoted expansion of {textv + unq_holes}, which can hold text ({'; '.join(dims.why.get(v, 'source of text') for v in textv)}): it is matched as a glob pattern, not compared literally")
+                    if not ok and textv == ["prefix"] and not unq_holes and rhs.endswith("*"):
+                        # deliberate prefix pattern: accepted only if `prefix` was passed through printf %q in the same function
+                        fn_nodes = funcs.get(f, [])
+                        q_ok = any(any(nn.kind == "simple" and any(a[0] == "prefix" and "printf '%q'" in a[3] for a in B.assignments(nn)) for nn, *_ in B.walk(fnode)) for fnode in fn_nodes)
+                        if q_ok:
+                            ok = True
+                            why = f"right operand {rhs}: prefix was passed through printf %q (pattern characters escaped), the trailing * is the intended pattern"
+                    if key not in seen or (seen[key][0] and not ok):
+                        seen[key] = (ok, why, n.line)
+            elif n.kind == "simple" and n.words and n.words[0] == "eval":
+                arg = " ".join(n.words[1:])
+                n_eval += 1
+                first_level = arg.replace("\\$", "\x00")
+                vs = sorted(set(B.vars_in(first_level)))
+                bad = [v for v in vs if dims.var_is_text(v)]
+                holes = [h for h in SHOLE.findall(first_level) if hole_text.get(h, True)]
+                key = f"{rule}:eval:{f}:{arg[:60]}"
+                ok = not bad and not holes
+                if key not in seen or (seen[key][0] and not ok):
+                    seen[key] = (ok, f"eval {arg[:70]} expands {vs} at the first level" + (": all clean (numbers / names built from constants and numbers)" if ok else f"; {bad + holes} can hold text, which eval would run as code"), n.line)
+            elif n.kind in ("simple", "for") and (n.kind == "for" or n.words):
+                ws = n.words if n.kind == "for" else n.words[1:]
+                if n.kind == "simple":
+                    first = n.words[0]
+                    if B.ASSIGN_RE.match(first) and not first.rstrip().endswith(")"):
+                        continue  # scalar assignment: no splitting
+                    if first in ("local", "declare", "typeset", "readonly", "export"):
+                        ws = [w for w in ws if B.ASSIGN_RE.match(w) and w.rstrip().endswith(")")]
+                        ws = [w[w.index("(") :] for w in ws]
+                    elif B.ASSIGN_RE.match(first):
+                        ws = [first[first.index("(") :]] + list(ws)
+                for w in ws:
+                    n_words += 1
+                    unq = [v for v in unquoted_expansions(w) if dims.var_is_text(v)]
+                    unq += [h for h in unquoted_holes(w) if hole_raw.get(h, True) and h not in RAW_CODE_HOLES]
+                    if unq:
+                        key = f"{rule}:split:{f}:{' '.join(n.words if n.kind == 'simple' else ['for', n.var, 'in'] + n.words)[:60]}"
+                        seen[key] = (False, f"word {w[:60]} expands {unq} (can hold text) outside double quotes: the value is split at whitespace and glob-expanded", n.line)
     for key, (ok, why, line) in sorted(seen.items()):
         res.check(ok, rule, key, why, f"bash skeleton line {line}")
-    # eval receives only id-dimension data: its arguments reference loop counters and names built from them
-    evs = {}
-    for flags in sets:
-        text, tree, funcs, _ = skeleton(repo, flags)
-        for n, loops, conds, f in B.walk(tree):
-            if n.kind == "simple" and n.words and n.words[0] == "eval":
-                arg = " ".join(n.words[1:])
-                vs = set(B.vars_in(arg.replace("\\$", "")))
-                bad = [v for v in vs if not re.match(r"^(subword_)?fallback_level$|_name$|^state$|^subword_state$", v)]
-                evs[f"{rule}:{f}:eval:{arg[:50]}"] = (not bad, f"eval {arg[:70]} expands only {sorted(vs)}" + (f"; {bad} may hold text" if bad else ""), n.line)
-    for key, (ok, why, line) in sorted(evs.items()):
-        res.check(ok, rule, key, why, f"bash skeleton line {line}")
+    res.check(n_words > 0, rule, f"{rule}:split:scanned", f"{n_words} command words / array elements / for-list words scanned for unquoted expansions of text variables over {len(sets)} flag assignments", "")
+    d0 = dims_for(repo, sets[1])[0]
     res.engines.setdefault("K", {})["bash_flag_assignments"] = len(sets)
     res.engines["K"]["bash_eq_tests_seen"] = n_tests
+    res.engines["K"]["bash_evals_seen"] = n_eval
+    res.engines["K"]["shell_vars_text"] = sorted(v for v in d0.text if len(v) > 1 or v == "_")
+    res.engines["K"]["shell_vars_clean"] = sorted(d0.assigned - d0.text)
     return len(seen)
+
+
+SHOLE = re.compile(r"H__(\w+?)__H")
+RAW_CODE_HOLES = {"cmd"}  # the body of _<cmd>_cmd_<id>: shell code by design (C07 TEXT allow-list)
+
+
+def unquoted_holes(word):
+    """format holes that sit outside double quotes in a word"""
+    out = []
+    i = 0
+    n = len(word)
+    while i < n:
+        c = word[i]
+        if c == "\\":
+            i += 2
+            continue
+        if c == "'":
+            j = word.find("'", i + 1)
+            i = n if j < 0 else j + 1
+            continue
+        if c == '"':
+            i = B.read_dquote(word, i + 1)
+            continue
+        m = SHOLE.match(word, i)
+        if m:
+            out.append(m.group(1))
+            i = m.end()
+            continue
+        i += 1
+    return out
 
 
 def unquoted_expansions(word):
